@@ -46,7 +46,7 @@ func (f *Frame) call(st *State, r *Term, site ssa.Instruction, cc *ssa.CallCommo
 			f.fieldFnCallPre(st, r, cc, args, pos)
 			if ftKey, nt := functypeKey(f.subst(cc.Value.Type())); nt != nil {
 				if ct := f.ctx.eng.contracts.Funcs[ftKey]; ct != nil {
-					return f.functypeCall(st, r, ct, nt, args, pos)
+					return f.functypeCall(st, r, ct, nt, v, args, pos)
 				}
 			}
 			if _, isParam := cc.Value.(*ssa.Parameter); isParam && f.contract != nil && f.contract.PureCallbacks {
